@@ -502,6 +502,10 @@ def c02(ctx: Ctx) -> None:
             ctx.violation('C02-R5', inst, where, why, construct=construct_key(lk.qualname, 'oslock', why))
         else:
             ctx.undecided('C02-R5', inst, where, why)
+    # the public alias: each arm of the platform selection picks a class whose primitive lives in the module that arm has
+    # just found importable; whatever is left gets a class that refuses (a class that "locks" with a module that is None
+    # fails on first use, one that returns without locking reports locks nobody holds)
+    _rule_platform_alias(ctx, r)
     # R6
     gr = build(r.release, p, inline_methods=True)
     tlrel = [n for n in gr.nodes if n.kind == 'call' and isinstance(n.ast.func, ast.Attribute)
@@ -640,6 +644,73 @@ def c02(ctx: Ctx) -> None:
                   'FileLock object in the process was handed that number in between, the second close drops that object\'s OS lock while it '
                   'still reports is_locked', construct=construct_key(f.qualname, 'closes descriptor'))
     r.publish(ctx)
+
+
+def _rule_platform_alias(ctx: Ctx, r: 'LockRoles') -> None:
+    p = ctx.program
+    u = r.unit
+    sub_names = {c.name: c for c in r.subs}
+    if not sub_names:
+        return
+
+    def prim_module(cls: Scope) -> Optional[str]:
+        lk = find_method(p, cls, r.oslock_name)
+        if lk is None:
+            return None
+        g = build(lk, p)
+        for n in g.nodes:
+            if n.kind == 'call':
+                nm = g.res.path(resolve(g, n, n.ast.func)) or g.res.path(n.ast.func) or ''
+                if nm.split('.')[0] in ('fcntl', 'msvcrt'):
+                    return nm.split('.')[0]
+        return 'none'
+    # names assigned one of the lock classes at module level: the alias
+    assigns: Dict[str, List[Tuple[ast.Assign, Tuple[Tuple[str, bool], ...]]]] = {}
+
+    def walk(stmts, conds):
+        for st in stmts:
+            if isinstance(st, ast.Assign) and len(st.targets) == 1 and isinstance(st.targets[0], ast.Name) \
+                    and isinstance(st.value, ast.Name) and st.value.id in sub_names:
+                assigns.setdefault(st.targets[0].id, []).append((st, conds))
+            elif isinstance(st, ast.If):
+                t = st.test
+                neg = False
+                while isinstance(t, ast.UnaryOp) and isinstance(t.op, ast.Not):
+                    t, neg = t.operand, not neg
+                if isinstance(t, ast.Compare) and len(t.ops) == 1 and isinstance(t.ops[0], (ast.IsNot, ast.Is)) and isinstance(t.left, ast.Name) \
+                        and isinstance(t.comparators[0], ast.Constant) and t.comparators[0].value is None:
+                    nm, pos = t.left.id, isinstance(t.ops[0], ast.IsNot) != neg
+                elif isinstance(t, ast.Name):
+                    nm, pos = t.id, not neg
+                else:
+                    nm, pos = None, True
+                walk(st.body, conds + (((nm, pos),) if nm else (('?', True),)))
+                walk(st.orelse, conds + (((nm, not pos),) if nm else (('?', True),)))
+    walk(u.tree.body, ())
+    n_inst = 0
+    for alias, sts in assigns.items():
+        if len(sts) < 2:
+            continue        # a plain alias of one class is not a platform selection
+        for st, conds in sts:
+            cls = sub_names[st.value.id]
+            pm = prim_module(cls)
+            true_mods = [nm for nm, pos in conds if pos and nm in ('fcntl', 'msvcrt')]
+            n_inst += 1
+            if pm in ('fcntl', 'msvcrt'):
+                ok = pm in true_mods
+                ctx.check('C02-R5', f'{alias} = {cls.name} (locks with {pm}) under {[("" if pos else "not ") + nm for nm, pos in conds]}', f'{FILE}:{st.lineno}', ok,
+                          f'selected only where `{pm}` was found importable',
+                          f'the platform alias selects {cls.name}, which locks with `{pm}`, on an arm that has not established that `{pm}` is available: '
+                          'on the other platform every acquire fails (or the wrong primitive is used)',
+                          construct=construct_key('platform alias', alias, cls.name, pm, sorted(true_mods)))
+            else:
+                lk = find_method(p, cls, r.oslock_name)
+                verdict, why = classify_oslock(p, lk, None) if lk is not None else ('unknown', 'no lock hook')
+                ctx.check('C02-R5', f'{alias} = {cls.name} (no locking primitive) as the fallback: {why}', f'{FILE}:{st.lineno}', verdict == 'refuses',
+                          'the fallback class refuses to lock', 'the class used where no locking module is available does not refuse: it reports locks nobody holds',
+                          construct=construct_key('platform alias', alias, cls.name, 'fallback', verdict))
+    if not n_inst:
+        ctx.note('no platform selection of a lock class at module level (a single lock class, or selection elsewhere)')
 
 
 def sites_of(g: CFG, callee: Scope) -> List[Node]:
